@@ -1,2 +1,142 @@
-(** C06 — property theorems only. *)
-From V Require Import Base.Util Gen.C06_tables_gen C06.Model C06.Spec C06.Proofs.
+(** C06 — property theorems only.  Each is closed by [exact] of a lemma in Proofs*.v and followed by
+    [Print Assumptions]. *)
+From V Require Import Base.Util Gen.C06_tables_gen C06.Model C06.Spec C06.Proofs C06.ProofsMap C06.ProofsWriter C06.ProofsCli.
+
+Theorem C06_alphabet_decodes :
+  forall i, (i < 64)%N -> b64_val (b64_char i) = Some i.
+Proof. exact b64_val_char. Qed.
+Print Assumptions C06_alphabet_decodes.
+
+Theorem C06_alphabet_injective :
+  forall i j, (i < 64)%N -> (j < 64)%N -> b64_char i = b64_char j -> i = j.
+Proof. exact b64_char_inj. Qed.
+Print Assumptions C06_alphabet_injective.
+
+Theorem C06_vlq_encode_total :
+  forall n : Z, exists t, vlq_encode n = Some t.
+Proof. exact vlq_encode_total. Qed.
+Print Assumptions C06_vlq_encode_total.
+
+Theorem C06_vlq_roundtrip :
+  forall (n : Z) t rest, vlq_encode n = Some t -> vlq_decode (t ++ rest) = Some (n, rest).
+Proof. exact vlq_roundtrip_lemma. Qed.
+Print Assumptions C06_vlq_roundtrip.
+
+Theorem C06_vlq_encode_wf :
+  forall n l, vlq_sextets n = Some l ->
+  exists init last, l = init ++ [last] /\ Forall (fun x => (32 <= x < 64)%N) init /\ (last < 32)%N.
+Proof. exact vlq_sextets_wf. Qed.
+Print Assumptions C06_vlq_encode_wf.
+
+Theorem C06_vlq_model_is_rust :
+  forall n, (- 2 ^ 63 <= n < 2 ^ 63)%Z -> vlq_sextets64 n = vlq_sextets n.
+Proof. exact vlq_model_is_rust_lemma. Qed.
+Print Assumptions C06_vlq_model_is_rust.
+
+Theorem C06_mappings_decode :
+  forall es m, add_entries m0 es = Some m -> decode_mappings (mbuf m) = Some (map seg_of_entry es).
+Proof. exact mappings_decode_lemma. Qed.
+Print Assumptions C06_mappings_decode.
+
+Theorem C06_add_entry_total :
+  forall m e, entry_ok m e = true -> exists m', add_entry m e = Some m'.
+Proof. exact add_entry_total. Qed.
+Print Assumptions C06_add_entry_total.
+
+Theorem C06_writer_position_inv :
+  forall fmap os st, sw_run fmap os = Some st ->
+  end_pos (c_buf (sw_cur st)) = (c_ln (sw_cur st), c_cl (sw_cur st)).
+Proof. exact writer_position_inv_lemma. Qed.
+Print Assumptions C06_writer_position_inv.
+
+Theorem C06_segments_sorted_in_text :
+  forall fmap os st, sw_run fmap os = Some st ->
+  exists es,
+    decode_mappings (mbuf (sw_map st)) = Some (map seg_of_entry es) /\
+    entries_sorted es /\
+    Forall (at_prefix (c_buf (sw_cur st))) es /\
+    Forall (fun e => exists o, In o os /\ from_op fmap o e) es.
+Proof. exact segments_sorted_in_text_lemma. Qed.
+Print Assumptions C06_segments_sorted_in_text.
+
+Theorem C06_named_segment_text :
+  forall fmap os st chunk p nm st',
+  sw_run fmap os = Some st -> p_builtin p = false -> sw_write_for st chunk p (Some nm) = Some st' ->
+  exists e1 e2 pre post k,
+    add_entries (sw_map st) [e1; e2] = Some (sw_map st') /\
+    c_buf (sw_cur st') = pre ++ post /\ end_pos pre = epos e1 /\ is_prefix (hd [] (split_on LF chunk)) post = true /\
+    e_ol e1 = p_line p /\ e_oc e1 = p_col p /\ e_ni e1 = Some k /\
+    nth_error (nm_all (sw_names st')) (N.to_nat k) = Some nm /\
+    end_pos (c_buf (sw_cur st')) = epos e2 /\
+    e_ol e2 = p_line p /\ e_oc e2 = (p_col p + utf16_len nm)%N /\ e_ni e2 = None /\ e_fi e2 = e_fi e1.
+Proof. exact named_segment_text_run. Qed.
+Print Assumptions C06_named_segment_text.
+
+Theorem C06_writer_buffers_grow :
+  forall fmap os os' s1 s2,
+  sw_run fmap os = Some s1 -> sw_run fmap (os ++ os') = Some s2 ->
+  (exists x, c_buf (sw_cur s2) = c_buf (sw_cur s1) ++ x) /\ (exists ext, nm_all (sw_names s2) = nm_all (sw_names s1) ++ ext).
+Proof. exact writer_buffers_grow_lemma. Qed.
+Print Assumptions C06_writer_buffers_grow.
+
+Theorem C06_filemap_schema :
+  forall fs op i p, store_small fs ->
+  nth_error (fs_schema fs) (N.to_nat i) = Some p ->
+  fmap_lookup (Some (file_indices fs op)) i = Some i /\ nth_error (sources_of fs op) (N.to_nat i) = Some p.
+Proof. exact filemap_schema. Qed.
+Print Assumptions C06_filemap_schema.
+
+Theorem C06_filemap_this_op :
+  forall fs j p, store_small fs ->
+  nth_error (fs_ops fs) j = Some p ->
+  let i := (fs_schema_len fs + N.of_nat j)%N in
+  fmap_lookup (Some (file_indices fs (Some i))) i = Some (fs_schema_len fs) /\
+  nth_error (sources_of fs (Some i)) (N.to_nat (fs_schema_len fs)) = Some p.
+Proof. exact filemap_this_op. Qed.
+Print Assumptions C06_filemap_this_op.
+
+Theorem C06_filemap_other_op :
+  forall fs op j p,
+  nth_error (fs_ops fs) j = Some p ->
+  op <> Some (fs_schema_len fs + N.of_nat j)%N ->
+  fmap_lookup (Some (file_indices fs op)) (fs_schema_len fs + N.of_nat j)%N = Some USIZE_MAX.
+Proof. exact filemap_other_op. Qed.
+Print Assumptions C06_filemap_other_op.
+
+Theorem C06_sources_in_range_partial :
+  forall fs op os st,
+  store_small fs -> ops_mapped fs op os = true ->
+  sw_run (Some (file_indices fs op)) os = Some st ->
+  exists es,
+    decode_mappings (mbuf (sw_map st)) = Some (map seg_of_entry es) /\
+    Forall (fun e =>
+      isize_of (e_fi e) = Z.of_N (e_fi e) /\
+      exists c p name path kind,
+        In (WF c p name) os /\ e_ol e = p_line p /\ fs_get fs (p_file p) = Some (path, kind) /\
+        nth_error (sources_of fs op) (N.to_nat (e_fi e)) = Some path) es.
+Proof. exact sources_in_range_partial_lemma. Qed.
+Print Assumptions C06_sources_in_range_partial.
+
+Theorem C06_sources_in_range_full_refuted :
+  ~ sources_in_range_full.
+Proof. exact sources_in_range_full_refuted. Qed.
+Print Assumptions C06_sources_in_range_full_refuted.
+
+Theorem C06_imported_fragment_source_index_refuted :
+  exists st gs g,
+    sw_run (Some (file_indices wit_store (Some 1%N))) wit_ops = Some st /\
+    decode_mappings (mbuf (sw_map st)) = Some gs /\ In g gs /\
+    g_orig g = Some ((-1)%Z, 0%Z, 9%Z, Some 0%Z) /\
+    sources_of wit_store (Some 1%N) = [s "/p/schema.graphql"; s "/p/main.graphql"].
+Proof. exact imported_fragment_source_index_refuted_lemma. Qed.
+Print Assumptions C06_imported_fragment_source_index_refuted.
+
+Theorem C06_unmapped_file_index_refuted :
+  exists st gs,
+    sw_run (Some [0%N; USIZE_MAX]) [WF (s "F") (mkpos 0 9 1 false) (Some (s "F"))] = Some st /\
+    mbuf (sw_map st) = s ",ADASA,CAAC" /\
+    decode_mappings (mbuf (sw_map st)) = Some gs /\
+    map g_orig gs = [Some ((-1)%Z, 0%Z, 9%Z, Some 0%Z); Some ((-1)%Z, 0%Z, 10%Z, None)].
+Proof. exact unmapped_file_index_refuted_lemma. Qed.
+Print Assumptions C06_unmapped_file_index_refuted.
+
